@@ -329,14 +329,18 @@ def buildHD (g : Attrs) (nd : List (PyId × Attrs)) (ed : List (PyId × List PyI
   let a2 := ed.foldl (fun a p => aAddEdge a p.1 p.2 []) a1
   ea.foldl (fun a p => aSetEdgeAttr a p.1 p.2) a2
 
+/-- one entry of `data["edge-dict"]`: `edgetype(idx)` and `{nodetype(n) for n in edge}` -/
+def uncastEdge (uncastN uncastE : String → Except Err PyId) (p : String × List String) : Except Err (PyId × List PyId) :=
+  match uncastE p.1, mapE uncastN p.2 with
+  | .ok e, .ok ms => .ok (e, ms)
+  | .error x, _ => .error x
+  | _, .error x => .error x
+
 /-- `from_hypergraph_dict(data, nodetype, edgetype)`; `uncastN` / `uncastE` are `nodetype` / `edgetype`
     (a failed cast is a `TypeError`) -/
 def fromHypergraphDict (uncastN uncastE : String → Except Err PyId) (d : HDict) : Except Err ANet :=
   match mapE (fun (p : String × Attrs) => (uncastN p.1).map (fun n => (n, p.2))) d.nodeData,
-        mapE (fun (p : String × List String) => match uncastE p.1, mapE uncastN p.2 with
-              | .ok e, .ok ms => .ok (e, ms)
-              | .error x, _ => .error x
-              | _, .error x => .error x) d.edgeDict,
+        mapE (uncastEdge uncastN uncastE) d.edgeDict,
         mapE (fun (p : String × Attrs) => (uncastE p.1).map (fun e => (e, p.2))) d.edgeData with
   | .ok nd, .ok ed, .ok ea => .ok (buildHD d.gattr nd ed ea)
   | .error x, _, _ => .error x
